@@ -335,7 +335,7 @@ func TestLifecycleHistoriesRapid(t *testing.T) {
 		nSteps := rapid.IntRange(3, vx.Pick(30, 45)).Draw(rt, "steps")
 		for i := 0; i < nSteps; i++ {
 			s := step{
-				kind:  rapid.SampledFrom([]string{"start", "start", "start", "stop", "editor-state", "editor-state", "editor-lock", "lc-state", "lc-state", "advance", "advance", "advance", "remove-owner", "deactivate-and-orphan", "lock-pending", "lock-pending", "orphan-own", "orphan-own", "start-race", "start-race"}).Draw(rt, "kind"),
+				kind:  rapid.SampledFrom([]string{"start", "start", "start", "stop", "editor-state", "editor-state", "editor-lock", "lc-state", "lc-state", "advance", "advance", "advance", "remove-owner", "deactivate-and-orphan", "deactivate-and-orphan", "lock-pending", "lock-pending", "orphan-own", "orphan-own", "start-race", "start-race"}).Draw(rt, "kind"),
 				who:   rapid.IntRange(0, nL-1).Draw(rt, "who"),
 				part:  int32(rapid.IntRange(0, 3).Draw(rt, "part")),
 				state: rapid.SampledFrom([]ring.PartitionState{ring.PartitionPending, ring.PartitionActive, ring.PartitionInactive, ring.PartitionDeleted, ring.PartitionUnknown}).Draw(rt, "state"),
@@ -353,6 +353,7 @@ func TestLifecycleHistoriesRapid(t *testing.T) {
 		lockedPending := 0
 		ownerless := 0
 		raced := 0
+		lateOwners := 0
 		slowWrites := 0
 		vx.Bubble(t, func(b *vx.B) {
 			t0 := time.Now()
@@ -570,6 +571,46 @@ func TestLifecycleHistoriesRapid(t *testing.T) {
 						}
 					}
 					time.Sleep(delDelay + s.dt%3*time.Second - time.Second)
+					if s.flag && delDelay > 0 {
+						// an owner registers for the partition at the last moment: immediately before the first write
+						// of any lifecycler at which the partition could be deleted (what a lifecycler read before
+						// that write no longer holds; the function of its write is handed the owner)
+						part := s.part
+						fired := false
+						skip := int(s.dt/(500*time.Millisecond)) % 3 // the 1st, 2nd or 3rd such write (a tick makes several)
+						late := func() bool {
+							if fired {
+								return true
+							}
+							pd, ok := current().Partitions[part]
+							if !ok || pd.State != ring.PartitionInactive || time.Since(time.Unix(pd.StateTimestamp, 0)) <= delDelay {
+								return false
+							}
+							for _, o := range current().Owners {
+								if o.OwnedPartition == part && o.State != ring.OwnerDeleted {
+									return false
+								}
+							}
+							if skip > 0 {
+								skip--
+								return false
+							}
+							fired = true
+							_ = store.CAS(context.Background(), "pring", func(v interface{}) (interface{}, bool, error) {
+								d := ring.GetOrCreatePartitionRingDesc(clonePD(v))
+								d.AddOrUpdateOwner(fmt.Sprintf("late-owner-%d", part), ring.OwnerActive, part, time.Now())
+								return d, true, nil
+							})
+							lateOwners++
+							return true
+						}
+						for i := range recs {
+							if recs[i] != nil {
+								recs[i].SetBefore(late)
+							}
+						}
+						time.Sleep(3 * time.Second)
+					}
 				case "advance":
 					time.Sleep(s.dt)
 				}
@@ -717,6 +758,9 @@ func TestLifecycleHistoriesRapid(t *testing.T) {
 		}
 		if slowWrites > 0 {
 			vx.Class("histories_with_editor_writes_served_slowly", 1)
+		}
+		if lateOwners > 0 {
+			vx.Class("histories_with_an_owner_registering_just_before_a_write_that_could_delete_its_partition", 1)
 		}
 		if raced > 0 {
 			vx.Class("histories_with_a_lost_startup_race", 1)
